@@ -25,6 +25,9 @@ Inductive case :=
 | WireCase (ver : Z) (dcid scid token : string) (lf pn pnLen : Z) (payload : string)
            (* observed: the protected packet as it left the packer (header through AEAD tag) *)
            (obsPacket : string)
+| PayloadCase (hello : string) (frames : list (Z * Z)) (pad : Z)
+              (* observed: the decrypted frame payload of a pass-through datagram *)
+              (obsPayload : string)
 | HeaderCase (ver : Z) (dcid scid token : string) (lf pn pnLen : Z)
              (* observed: the packet's header bytes after the independent observer removed header protection *)
              (obsHeader : string).
@@ -87,7 +90,7 @@ Definition dial_obs (specDcid specScid ipn : Z) (lens : list Z) (single : Z)
   {| do_dcid := d; do_scid := s; do_pn := pn; do_pnLen := pl; do_token := tok;
      do_hdr := hdrLen d s (tokLenOf tok) pl |}.
 
-Inductive obs := FObs (o : fobs) | DObs (o : dobs) | VObs (rejected : bool) | HObs (cls : Z) (bytes : list Z) | NObs (pkts : list (Z * Z)) | WObs (cls : Z) (pkt : list Z).
+Inductive obs := FObs (o : fobs) | DObs (o : dobs) | VObs (rejected : bool) | HObs (cls : Z) (bytes : list Z) | NObs (pkts : list (Z * Z)) | WObs (cls : Z) (pkt : list Z) | PObs (payload : list Z).
 
 Definition model_obs (c : case) : obs :=
   match c with
@@ -107,6 +110,7 @@ Definition model_obs (c : case) : obs :=
        version (C05's Gallina HKDF / AES-128-GCM / AES-ECB) *)
     let '(c, hdr) := initialHeaderBytes ver (hx dcid) (hx scid) (hx token) lf pn pnLen in
     WObs c (initial_protect (ver =? H_Version2) true (hx dcid) hdr (hx payload) pn (Z.to_nat pnLen))
+  | PayloadCase hello frames pad _ => PObs (passPayload (hx hello) frames pad)
   | HeaderCase ver dcid scid token lf pn pnLen _ =>
     let '(c, b) := initialHeaderBytes ver (hx dcid) (hx scid) (hx token) lf pn pnLen in HObs c b
   end.
@@ -126,6 +130,7 @@ Definition check_case (c : case) : bool :=
   | ValidateCase _ _ _ _ _ _ _ _ orej, VObs r => Bool.eqb r orej
   | VNCase _ _ _ ops, NObs m => list_eqb pair_eqb m ops
   | WireCase _ _ _ _ _ _ _ _ ow, WObs c b => (c =? 0) && zeqb_list b (hx ow)
+  | PayloadCase _ _ _ op, PObs b => zeqb_list b (hx op)
   | HeaderCase _ _ _ _ _ _ _ oh, HObs c b => (c =? 0) && zeqb_list b (hx oh)
   | _, _ => false
   end.
